@@ -5,7 +5,7 @@ from harness.common import EX, add_record, new_doc
 PATHS = ["factory", "add_record", "update", "constructor_records", "unified", "flattened", "add_bundle_document",
          "json_container_decode"]
 # (kind index, identified?)   relations get fixed endpoints ex:a / ex:b
-REC_KINDS = [(0, True), (1, True), (9, True), (2, True), (3, False), (8, True)]
+REC_KINDS = [(0, True), (1, True), (9, True), (2, True), (3, False), (8, True), (16, False), (14, False)]
 
 
 def _spell(ctx, tag, local, menu=(0, 1, 2, 3, 4, 5)):
@@ -42,7 +42,7 @@ def lookup(ctx):
         k, identified = REC_KINDS[kinds[ctx.choose("kind", len(kinds))]]
         loc = ctx.str("id", 2, 1, "name")
         ident = _spell(ctx, "idspell", loc, spells) if identified else None
-        args = None if k in (0, 1, 9) else ["en:a", "en:b"]
+        args = None if k in (0, 1, 9) else (["en:a", "en:b", "en:bb"] if k == 16 else ["en:a", "en:b"])
         made.append(add_record(target, k, ident, args))
         if path == 5 and i == 0 and n > 1:
             target = src  # first record in the bundle, the others at top level
@@ -72,12 +72,27 @@ def lookup(ctx):
 
         c = ProvDocument()
         decode_json_document(encode_json_document(src), c)
+    # a record whose prefix 'ex' is bound to ANOTHER URI arrives from a third document (prefix clash -> renamed)
+    ns_ex = c.add_namespace("ex", EX)
+    # (only when 'ex' really is bound to EX here; if EX was already known under another prefix, 'ex' is a mere alias
+    #  and a later binding of 'ex' would legitimately change what the string 'ex:l' denotes)
+    if ns_ex.prefix == "ex" and ctx.params.get("extra") == "clash":
+        third = ProvDocument()
+        third.add_namespace("ex", "http://other/")
+        c.add_record(third.entity("ex:" + ctx.str("id", 2, 1, "name")))
+    # when the container is a bundle, its document holds a record under the very name that is looked up
+    parent_loc = None
+    if not c.is_document() and c.document is not None and ctx.params.get("extra") == "parent":
+        parent_loc = True
     c.add_namespace("ex", EX)
     c.add_namespace("ex2", EX)
     if c.get_default_namespace() is None and (c.is_document() or c.document.get_default_namespace() is None):
         c.set_default_namespace(EX)
     # ---- query ---------------------------------------------------------------------------------------------------
     q = ctx.str("q", 2, 1, "name")
+    if parent_loc:
+        c.document.add_namespace("ex", EX)
+        c.document.entity("ex:" + q, {"en:where": "document level"})
     x = _spell(ctx, "qspell", q)
     before = list(c.get_records())
     expected = [r for r in before if r.identifier is not None and r.identifier.uri == EX + q]
@@ -93,7 +108,8 @@ def lookup(ctx):
               "a lookup changed the record list")
     # typed listing
     for cls in (pm.ProvEntity, pm.ProvActivity, pm.ProvAgent, pm.ProvElement, pm.ProvRelation, pm.ProvGeneration,
-                pm.ProvUsage, pm.ProvDerivation, (pm.ProvEntity, pm.ProvUsage)):
+                pm.ProvUsage, pm.ProvDerivation, pm.ProvSpecialization, pm.ProvMention, (pm.ProvEntity, pm.ProvUsage),
+                (pm.ProvSpecialization, pm.ProvAgent)):
         want = [r for r in before if isinstance(r, cls)]
         have = list(c.get_records(cls))
         ctx.check(len(want) == len(have) and all(a is b for a, b in zip(want, have)),
@@ -140,7 +156,7 @@ def full_uri(ctx):
 
 # per record position: (indices into REC_KINDS, spellings of the identifier)
 MENUS = {
-    "full": [((0, 1, 2, 3, 4, 5), (0, 1, 2, 3, 4, 5))],
+    "full": [((0, 1, 2, 3, 4, 5, 6, 7), (0, 1, 2, 3, 4, 5))],
     "mid": [((0, 3, 4), (0, 1, 2)), ((0, 3, 4), (0, 3)), ((0, 4), (1,))],
     "small": [((0, 4), (0, 1)), ((0, 3), (2,)), ((0, 4), (3,)), ((0,), (1,))],
 }
@@ -150,6 +166,11 @@ def _shards(tier):
     out = []
     for p in range(len(PATHS)):
         out.append({"path": p, "n": 1, "menu": "full"})
+        out.append({"path": p, "n": 1, "menu": "mid", "extra": "clash"})
+        out.append({"path": p, "n": 2, "menu": "small", "extra": "clash"})
+        if p == 6:
+            out.append({"path": p, "n": 1, "menu": "full", "extra": "parent"})
+            out.append({"path": p, "n": 2, "menu": "mid", "extra": "parent"})
         out.append({"path": p, "n": 2, "menu": "mid"})
         if tier == "thorough":
             out.append({"path": p, "n": 2, "menu": "full"})
